@@ -108,13 +108,13 @@ def finish (d : DS) (s : St replayCodec) (normal : String) : DS × String :=
   | some p => ({ d with st := some s }, s!"= z-mismatch {p}")
   | none => ({ d with st := some s }, normal)
 
-def readLine (d : DS) (r : St replayCodec × Bytes × List Int) : String :=
+def ioLine (d : DS) (r : St replayCodec × Bytes × List Int) : String :=
   let s := r.1
   let rets := if r.2.2.isEmpty then "-" else joinWith "," (r.2.2.map toString)
   let calls := if s.calls.isEmpty then "-"
     else joinWith "," (s.calls.map fun c => s!"{c.1}:{c.2}")
   let acked := d.submitted - unwritten s.queue
-  s!"= plain {Hex.ofBytes r.2.1} rets={rets} net {Hex.ofBytes s.net} calls={calls} acked={acked} q={s.queue.length} pend={if pending s then 1 else 0}" ++ tail s
+  s!"= io plain={Hex.ofBytes r.2.1} rets={rets} net={Hex.ofBytes s.net} calls={calls} acked={acked} q={s.queue.length} pend={if pending s then 1 else 0}" ++ tail s
 
 def stepOp (d : DS) (recs : List ZRec) (toks : List String) : DS × String :=
   match d.st, toks with
@@ -133,21 +133,17 @@ def stepOp (d : DS) (recs : List ZRec) (toks : List String) : DS × String :=
     match parseSched sc with
     | none => (d, "= bad-op")
     | some sched =>
-      let s := load { s with sched := sched, net := [], calls := [] } recs
-      let s := runOnceSend cwFuel s
-      let calls := if s.calls.isEmpty then "-"
-        else joinWith "," (s.calls.map fun c => s!"{c.1}:{c.2}")
-      let acked := d.submitted - unwritten s.queue
-      finish d s (s!"= net {Hex.ofBytes s.net} calls={calls} acked={acked} q={s.queue.length}" ++ tail s)
+      let r := runOnce cwFuel (load { s with sched := sched, net := [], calls := [] } recs)
+      finish d r.1 (ioLine d r)
   | some s, ["rxz", h] =>
     match Hex.toBytes h with
     | none => (d, "= bad-op")
     | some b =>
       let r := rxFragment cwFuel rdFuel (load { s with net := [], calls := [] } recs) b
-      finish d r.1 (readLine d r)
+      finish d r.1 (ioLine d r)
   | some s, ["eof"] =>
     let r := readLoop cwFuel rdFuel { load { s with net := [], calls := [] } recs with inEof := true } [] []
-    finish d r.1 (readLine d r)
+    finish d r.1 (ioLine d r)
   | some s, ["pend"] => (d, s!"= pend {if pending s then 1 else 0}")
   | some s, ["end"] =>
     -- xmpp_conn_release → (conn_disconnect if still connected) → _conn_reset → compression_free
